@@ -268,6 +268,12 @@ func c11Families(h *H) []c11Family {
 		{"flags-many", c11Cmd{Kind: "Select", Param: "x"}, func(n int) string {
 			return c11Repeat("* FLAGS (", n, func(i int) string { return "f" + strconv.Itoa(i) + " " }, "x)\r\nT1 OK x\r\n")
 		}, q(20000, 200000)},
+		// a selected mailbox with n flags, then n unilateral updates of its summary: each update
+		// must cost O(1), not O(number of flags)
+		{"selected-mailbox-updates", c11Cmd{Kind: "Select", Param: "x"}, func(n int) string {
+			fl := c11Repeat("* FLAGS (", n, func(i int) string { return "f" + strconv.Itoa(i) + " " }, "x)\r\n* 1 EXISTS\r\nT1 OK [READ-WRITE] x\r\n")
+			return fl + c11Repeat("", n, func(i int) string { return "* " + strconv.Itoa(i+2) + " EXISTS\r\n* 1 EXPUNGE\r\n" }, "")
+		}, q(4000, 20000)},
 		{"list-many", c11Cmd{Kind: "List"}, func(n int) string {
 			return c11Repeat("", n, func(i int) string { return "* LIST (\\HasNoChildren) \"/\" \"box" + strconv.Itoa(i) + "\"\r\n" }, "T1 OK x\r\n")
 		}, q(5000, 50000)},
